@@ -33,6 +33,7 @@ type vWitness struct {
 	Label   string        `json:"label"`
 	Site    string        `json:"site"`
 	Nondet  []vWitnessVal `json:"nondet"`
+	Sched   []int         `json:"sched"`
 }
 
 var (
@@ -179,7 +180,7 @@ func vRender(v any) string {
 func vYield(key int)      {}
 
 // vQuiesce waits until every other goroutine has finished or is blocked.
-func vQuiesce() { time.Sleep(50 * time.Millisecond) }
+func vQuiesce() { time.Sleep(5 * time.Millisecond) }
 func vConsumed(n int)     {}
 func vSymbolic() bool     { return false }
 func vExpectPanic()       {}
